@@ -34,6 +34,7 @@ import (
 	"runtime"
 	"strconv"
 	"strings"
+	"sync"
 	"syscall"
 	"time"
 )
@@ -154,23 +155,24 @@ func (e Event) IsMark() (string, bool) {
 	return rest[:j], true
 }
 
-var fdAnn = regexp.MustCompile(`^(\d+)<([^>]*)>`)
+// regular expressions are compiled lazily: the helper side of this package must start fast
+var fdAnn = sync.OnceValue(func() *regexp.Regexp { return regexp.MustCompile(`^(\d+)<([^>]*)>`) })
 
 // FdPath returns the path strace -y printed for the first (fd) argument, if any.
 func (e Event) FdPath() string {
-	m := fdAnn.FindStringSubmatch(e.Args)
+	m := fdAnn().FindStringSubmatch(e.Args)
 	if m == nil {
 		return ""
 	}
 	return m[2]
 }
 
-var quoted = regexp.MustCompile(`"((?:[^"\\]|\\.)*)"`)
+var quoted = sync.OnceValue(func() *regexp.Regexp { return regexp.MustCompile(`"((?:[^"\\]|\\.)*)"`) })
 
 // Paths returns the quoted string arguments (paths) of the call.
 func (e Event) Paths() []string {
 	var r []string
-	for _, m := range quoted.FindAllStringSubmatch(e.Args, -1) {
+	for _, m := range quoted().FindAllStringSubmatch(e.Args, -1) {
 		r = append(r, m[1])
 	}
 	return r
@@ -247,20 +249,31 @@ func (r *Result) Crashed() bool {
 		bytes.Contains(r.Stderr, []byte("fatal error: ")) || bytes.Contains(r.Stderr, []byte("[signal SIG"))
 }
 
-var (
-	reLine    = regexp.MustCompile(`^(\d+)\s+(.*)$`)
-	reResumed = regexp.MustCompile(`^<\.\.\. (\w+) resumed>\s?(.*)$`)
-	reEntry   = regexp.MustCompile(`^(\w+)\((.*)$`)
-	reKilled  = regexp.MustCompile(`^\+\+\+ killed by (\w+)`)
-	reExited  = regexp.MustCompile(`^\+\+\+ exited with (\d+) \+\+\+`)
-)
+type regs struct{ line, resumed, entry, killed, exited *regexp.Regexp }
 
-func splitRet(s string) (args, ret string, ok bool) {
-	i := strings.LastIndex(s, ") = ")
-	if i < 0 {
-		return s, "", false
+var rx = sync.OnceValue(func() *regs {
+	return &regs{
+		line:    regexp.MustCompile(`^(\d+)\s+(.*)$`),
+		resumed: regexp.MustCompile(`^<\.\.\. (\w+) resumed>\s?(.*)$`),
+		entry:   regexp.MustCompile(`^(\w+)\((.*)$`),
+		killed:  regexp.MustCompile(`^\+\+\+ killed by (\w+)`),
+		exited:  regexp.MustCompile(`^\+\+\+ exited with (\d+) \+\+\+`),
 	}
-	return s[:i], strings.TrimSpace(s[i+4:]), true
+})
+
+// splitRet splits "args)   = ret" at the last " = " that follows a closing parenthesis (strace pads short lines).
+func splitRet(s string) (args, ret string, ok bool) {
+	for end := len(s); ; {
+		i := strings.LastIndex(s[:end], " = ")
+		if i < 0 {
+			return s, "", false
+		}
+		a := strings.TrimRight(s[:i], " ")
+		if strings.HasSuffix(a, ")") {
+			return a[:len(a)-1], strings.TrimSpace(s[i+3:]), true
+		}
+		end = i
+	}
 }
 
 // Parse parses a strace -f -o trace.
@@ -270,7 +283,7 @@ func Parse(raw []byte) (events []Event, mainTid int, perr int) {
 		if ln == "" {
 			continue
 		}
-		m := reLine.FindStringSubmatch(ln)
+		m := rx().line.FindStringSubmatch(ln)
 		if m == nil {
 			perr++
 			continue
@@ -284,7 +297,7 @@ func Parse(raw []byte) (events []Event, mainTid int, perr int) {
 		case strings.HasPrefix(body, "+++"), strings.HasPrefix(body, "---"):
 			continue
 		}
-		if rm := reResumed.FindStringSubmatch(body); rm != nil {
+		if rm := rx().resumed.FindStringSubmatch(body); rm != nil {
 			idx, ok := pending[tid]
 			if !ok {
 				perr++
@@ -305,7 +318,7 @@ func Parse(raw []byte) (events []Event, mainTid int, perr int) {
 			}
 			continue
 		}
-		em := reEntry.FindStringSubmatch(body)
+		em := rx().entry.FindStringSubmatch(body)
 		if em == nil {
 			perr++
 			continue
@@ -418,7 +431,7 @@ func Exec(c Cmd) (*Result, error) {
 	// strace mirrors the tracee's fate: exits with its code or kills itself with the same signal.
 	// The authoritative record is the trace's "+++" line of the main thread.
 	for _, ln := range strings.Split(string(raw), "\n") {
-		m := reLine.FindStringSubmatch(ln)
+		m := rx().line.FindStringSubmatch(ln)
 		if m == nil {
 			continue
 		}
@@ -426,10 +439,10 @@ func Exec(c Cmd) (*Result, error) {
 		if tid != res.MainTid {
 			continue
 		}
-		if k := reKilled.FindStringSubmatch(m[2]); k != nil {
+		if k := rx().killed.FindStringSubmatch(m[2]); k != nil {
 			res.Signal = k[1]
 			res.ExitCode = -1
-		} else if x := reExited.FindStringSubmatch(m[2]); x != nil {
+		} else if x := rx().exited.FindStringSubmatch(m[2]); x != nil {
 			res.ExitCode, _ = strconv.Atoi(x[1])
 		}
 	}
